@@ -177,7 +177,8 @@ def icosahedron(center : Vec = Vec(0,0,0), radius: float=1., uv=False):
     phi = (1 + sqrt(5)) / 2
     m = RawMeshData()
 
-    m.vertices += [ radius*a+center for a in 
+    norm = sqrt(1 + phi*phi) # so that vertices are at distance `radius` from the center
+    m.vertices += [ (radius/norm)*a+center for a in 
     [
         Vec(-1, phi,0),
         Vec(1, phi, 0),
